@@ -22,6 +22,7 @@ SRC2 = {"json": {"k": [3]}, "text": "second", "pickle": (2,), "binary": b"\x02"}
 
 def run_files(ctx):
     overlapping_writes(ctx)
+    long_paths(ctx)
     uj = core.use_repo()
     import c11_common as cc
     from uberjob.stores import BinaryFileStore, JsonFileStore, PickleFileStore, TextFileStore
@@ -168,3 +169,58 @@ def overlapping_writes(ctx):
         finally:
             fsm.os = os
             shutil.rmtree(d, ignore_errors=True)
+
+
+def long_paths(ctx):
+    """Partitioned layouts: file stores with long paths that differ only in the middle.  After a run that was cut between the
+    writes of two sibling stores, the next run rebuilds exactly the sibling that was not rewritten."""
+    import time
+    uj = core.use_repo()
+    from uberjob.stores import JsonFileStore, TextFileStore
+    d = tempfile.mkdtemp(prefix="ujc08l_")
+    try:
+        calls = []
+        failing = set()
+
+        def P(region, name):
+            p = os.path.join(d, "warehouse-" + "x" * 40, "region=%s" % region, "dataset-" + "y" * 40, name)
+            os.makedirs(os.path.dirname(p), exist_ok=True)
+            return p
+        plan, reg = uj.Plan(), uj.Registry()
+        cleaned = {}
+        for region in ("EU", "US"):
+            with open(P(region, "in.txt"), "w") as f:
+                f.write("1")
+            src = plan.call(int, reg.source(plan, TextFileStore(P(region, "in.txt"))))
+
+            def clean(v, region=region):
+                calls.append(region)
+                if region in failing:
+                    raise IOError("cleaning %s fails" % region)
+                return [v, v * 10]
+            cleaned[region] = plan.call(clean, src)
+            reg.add(cleaned[region], JsonFileStore(P(region, "cleaned.json")))
+        summary = plan.call(lambda a, b: {"EU": sum(a), "US": sum(b)}, cleaned["EU"], cleaned["US"])
+        reg.add(summary, JsonFileStore(os.path.join(d, "summary.json")))
+        uj.run(plan, registry=reg, output=summary, progress=None, max_workers=1)
+        time.sleep(0.02)
+        for region, v in (("EU", 2), ("US", 3)):
+            with open(P(region, "in.txt"), "w") as f:
+                f.write(str(v))
+        failing.add("US")
+        try:
+            uj.run(plan, registry=reg, output=summary, progress=None, max_workers=1, max_errors=None)
+            cut = "returned"
+        except uj.CallError:
+            cut = "cut"
+        failing.clear()
+        del calls[:]
+        out = uj.run(plan, registry=reg, output=summary, progress=None, max_workers=1)
+        ctx.case(("c08-long-paths",))
+        got = (out, JsonFileStore(P("US", "cleaned.json")).read(), JsonFileStore(P("EU", "cleaned.json")).read())
+        want = ({"EU": 22, "US": 33}, [3, 30], [2, 20])
+        if got != want or (cut == "cut" and sorted(calls) != ["US"]):
+            ctx.fail("long-paths:repair", "sibling stores with long paths differing only in the middle: after a cut between their writes the next run executed "
+                     "%r and gave %r; expected to rebuild exactly ['US'] and give %r" % (sorted(calls), got, want), {"cut_run": cut, "calls": sorted(calls)})
+    finally:
+        shutil.rmtree(d, ignore_errors=True)
